@@ -854,19 +854,7 @@ def trim_rules(ck, mod, fn):
                       'the graph handed to connected_components must be a COPY of the counts '
                       '(np.array(counts, copy=True)); thresholding the original destroys sub-threshold counts')
         before = [(s, t) for s, t in gstores if fi.cfg.reachable(s, cst)]
-        if len(before) != 1 or not isinstance(before[0][0], ast.Assign):
-            ck.missing('C11.D2.threshold', 'exactly one store into the graph %s before the component search (found %d)' % (G, len(before)))
-        else:
-            ts, tt = before[0]
-            m = _xb(fi, tt.slice)
-            v = _cls(m, cmask + ['%s < %s' % (G, thr)], scope={counts, thr, G})
-            if v[0] == 'match' and const_value(ts.value) != 0:
-                v = ('near', 1, '%s[%s < %s] = 0' % (G, counts, thr)) if isinstance(ts.value, ast.Constant) else ('far', 0, None)
-            ck.decide(v, 'C11.D2.threshold', mod, ts, F, u(ts),
-                      'counts strictly below the threshold are removed from the graph only',
-                      'thresholding must zero exactly the entries with counts < threshold in the graph copy')
-            ck.check(dom(ts, cst), 'C11.D2.threshold', mod, ts, F, 'threshold before components',
-                     'thresholding precedes the component search', 'thresholding must happen on every path before connected_components')
+        graph_edit_rule(ck, mod, fn, fi, G, counts, thr, cmask, before, cst)
     else:
         g = _xb(fi, graph) if graph is not None else None
         forms = ['np.where(%s < %s, 0, %s)' % (counts, thr, counts), 'np.where(%s <= %s, %s, 0)' % (thr, counts, counts),
@@ -1029,6 +1017,157 @@ def trim_rules(ck, mod, fn):
 
     # ---- D3.inplace
     inplace_rule(ck, mod, fn, fi, M, mdef['inp'][0], counts, labels, bx, kx, at, af, scope_all)
+
+
+_TRANSPOSERS = ('transpose', 'swapaxes', 'T', 'moveaxis', 'rot90', 'flip', 'fliplr', 'flipud', 'roll', 'tril', 'triu')
+
+
+def _reads_other_entry(e, names):
+    """A sub-expression of the elementwise mask `e` that reads one of the
+    matrices in `names` at ANOTHER position than the one being decided: its
+    transpose (`X.T`, `X.transpose()`, `np.transpose(X)`, swapaxes ...), a
+    flipped / rolled / triangular view.  None if there is none."""
+    for x in ast.walk(e):
+        if isinstance(x, ast.Attribute) and x.attr in _TRANSPOSERS and isinstance(x.value, ast.Name) and x.value.id in names:
+            return x
+        if isinstance(x, ast.Call) and (call_name(x) or '').split('.')[-1] in _TRANSPOSERS and \
+                any(isinstance(a, ast.Name) and a.id in names for a in x.args):
+            return x
+    return None
+
+
+def graph_edit_rule(ck, mod, fn, fi, G, counts, thr, cmask, before, cst):
+    """EVERY edit of the graph between its construction and the component
+    search.  The directed graph must have the edge i -> j exactly when
+    counts[i, j] >= threshold, so each store `G[mask] = const` is one of
+      * the thresholding: mask = (counts < threshold) [or G < threshold: G
+        holds the counts or 0], value 0 - at least one, on every path;
+      * a store that cannot change which entries are non-zero: zeroing the
+        entries that are zero (or, for non-negative counts, <= 0) already,
+        giving the surviving entries (counts >= threshold, G != 0) another
+        non-zero constant;
+      * anything else that is an elementwise function of the same operands
+        removes / adds edges by another criterion -> VIOLATION (named
+        specially when the mask reads the REVERSE entry: the graph is made
+        symmetric and strong connectivity degenerates to reciprocal links);
+      * a store the rule cannot read (other operands, non-constant value,
+        a tuple index) -> analysis incomplete."""
+    rule = 'C11.D2.threshold'
+    dom = fi.cfg.dominates
+    scope = {counts, thr, G}
+    if not before:
+        ck.missing(rule, 'a store into the graph %s before the component search (found 0)' % G)
+        return
+    seen = {id(s) for s, _ in before}
+    for ms in fi._mutated_in_place(G):
+        if id(ms) not in seen and fi.cfg.reachable(ms, cst):
+            ck.missing(rule, 'the graph %s is modified by %s before the component search' % (G, _short(ms, 100)))
+            return
+    # writes the subscript stores do not show: a call statement that receives the graph (np.fill_diagonal(G, ..),
+    # np.minimum(G, G.T, out=G), G.sort()), an alias / view taken of it (H = G.T ... H[..] = 0)
+    def _is_view_of(e):
+        while True:
+            if isinstance(e, ast.Name):
+                return e.id == G
+            if isinstance(e, ast.Attribute) and e.attr in ('shape', 'size', 'dtype', 'ndim'):
+                return False
+            if isinstance(e, (ast.Attribute, ast.Subscript)):
+                e = e.value
+            elif isinstance(e, ast.Call) and isinstance(e.func, ast.Attribute) and \
+                    e.func.attr in ('view', 'reshape', 'ravel', 'transpose', 'swapaxes', 'squeeze', 'diagonal'):
+                e = e.func.value
+            elif isinstance(e, ast.Call) and (call_name(e) or '') in ('np.asarray', 'np.asanyarray', 'np.transpose', 'np.ravel',
+                                                                      'np.reshape', 'np.diagonal', 'np.swapaxes') and e.args:
+                e = e.args[0]
+            else:
+                return False
+    for x in walk_local(fn):
+        if not isinstance(x, (ast.Expr, ast.Assign, ast.AnnAssign, ast.AugAssign)) or id(x) in seen or x is cst or \
+                getattr(x, 'value', None) is None or not fi.cfg.reachable(x, cst):
+            continue
+        hidden = False
+        if isinstance(x, ast.Expr) and isinstance(x.value, ast.Call):
+            from ..normal import _is_log_stmt
+            hidden = not _is_log_stmt(x) and call_name(x.value) != 'print' and \
+                any(isinstance(m, ast.Name) and m.id == G for m in ast.walk(x.value))
+        elif isinstance(x, (ast.Assign, ast.AnnAssign)):
+            tg = x.targets if isinstance(x, ast.Assign) else [x.target]
+            if not any(isinstance(t, ast.Name) and t.id == G for t in tg):
+                if _is_view_of(x.value):
+                    # an alias / view: harmless unless something is written through it
+                    for t in tg:
+                        hidden = hidden or not isinstance(t, ast.Name) or bool(fi._mutated_in_place(t.id)) or any(
+                            isinstance(y, ast.Expr) and isinstance(y.value, ast.Call) and any(
+                                isinstance(m, ast.Name) and m.id == t.id for m in ast.walk(y.value)) for y in walk_local(fn))
+                hidden = hidden or any(isinstance(c_, ast.Call) and any(k.arg == 'out' and any(
+                    isinstance(m, ast.Name) and m.id == G for m in ast.walk(k.value)) for k in c_.keywords) for c_ in ast.walk(x.value))
+        if hidden:
+            ck.missing(rule, 'the graph %s may be modified through %s before the component search' % (G, _short(x, 100)))
+            return
+    thr_forms = cmask + ['%s < %s' % (G, thr)]
+    zero_noop = []                # zeroing what is zero already (counts are non-negative)
+    for X in (G, counts):
+        zero_noop += ['%s == 0' % X, '%s <= 0' % X, '%s < 0' % X, 'np.equal(%s, 0)' % X, '~(%s != 0)' % X, '~(0 < %s)' % X]
+    keep_noop = ['%s <= %s' % (thr, counts), '~(%s < %s)' % (counts, thr), '%s != 0' % G, '0 < %s' % G, '%s <= %s' % (thr, G),
+                 '~(%s < %s)' % (G, thr), '%s.astype(bool)' % G]
+    thresholdings, unknown = [], []
+    for s, t in before:
+        if not isinstance(s, ast.Assign) or len(s.targets) != 1:
+            unknown.append(s)
+            continue
+        m = _xb(fi, t.slice)
+        val = const_value(s.value) if isinstance(s.value, ast.Constant) else None
+        isnum = type(val) in (int, float, bool)
+        v = _cls(m, thr_forms, scope=scope)
+        if v[0] == 'match':
+            if isnum and val == 0:
+                thresholdings.append(s)
+                ck.ok(rule, mod, s, u(s), 'counts strictly below the threshold are removed from the graph only')
+            elif isnum:
+                ck.bad(rule, mod, s, F, u(s), 'thresholding must zero exactly the entries with counts < threshold in the graph copy '
+                       '(closest accepted form: %s[%s < %s] = 0)' % (G, counts, thr))
+            else:
+                unknown.append(s)
+            continue
+        if isnum and val == 0 and classify(m, zero_noop)[0] == 'match':
+            ck.ok(rule, mod, s, u(s), 'zeroes entries of the graph that are zero already')
+            continue
+        if isnum and val != 0 and val == val and val > 0 and classify(m, keep_noop)[0] == 'match':
+            ck.ok(rule, mod, s, u(s), 'the surviving entries stay non-zero: the edge set is unchanged')
+            continue
+        rev = _reads_other_entry(m, (G, counts)) if not isinstance(m, (ast.Tuple, ast.Slice)) else None
+        closed = classify(m, thr_forms, scope=scope)[0] == 'near' and not isinstance(m, (ast.Tuple, ast.Slice))
+        if len(before) == 1:
+            # the only store: it is the thresholding, spelled in a way that is not accepted
+            if rev is not None and closed and isnum:
+                v = ('near', 1, '%s[%s < %s] = 0' % (G, counts, thr))
+            ck.decide(v, rule, mod, s, F, u(s),
+                      'counts strictly below the threshold are removed from the graph only',
+                      'thresholding must zero exactly the entries with counts < threshold in the graph copy')
+            ck.check(dom(s, cst), rule, mod, s, F, 'threshold before components',
+                     'thresholding precedes the component search', 'thresholding must happen on every path before connected_components')
+            return
+        if closed and isnum and rev is not None:
+            ck.bad(rule, mod, s, F, u(s),
+                   'entry (i, j) of the graph is changed depending on %s, i.e. on ANOTHER entry (the reverse transition j -> i): '
+                   'the directed thresholded graph is symmetrised, so connected_components(connection="strong") returns the '
+                   'components of reciprocal links instead of the strongly connected components (a directed cycle is split)'
+                   % _short(rev, 60))
+        elif closed and isnum:
+            ck.bad(rule, mod, s, F, u(s),
+                   'besides the thresholding, the graph is edited with the mask %s before the component search: the edge i -> j '
+                   'must exist exactly when counts[i, j] >= threshold' % _short(m, 80))
+        else:
+            unknown.append(s)
+    if unknown:
+        ck.missing(rule, 'store into the graph %s before the component search not recognised: %s' % (G, _short(unknown[0], 100)))
+        return
+    if not thresholdings:
+        if len(before) > 1:
+            ck.missing(rule, 'none of the %d stores into the graph %s is the thresholding %s[%s < %s] = 0' % (len(before), G, G, counts, thr))
+        return
+    ck.check(any(dom(s, cst) for s in thresholdings), rule, mod, thresholdings[0], F, 'threshold before components',
+             'thresholding precedes the component search', 'thresholding must happen on every path before connected_components')
 
 
 def keep_chain(ck, mod, fn, fi, K, counts, labels, nsub, G, okd, redefs, node):
